@@ -118,6 +118,20 @@ def feval(v, env):
             return feval(v.args[0], env)
         if v.fn == "getitem" and len(v.args) == 2 and all(i == Const(None) or (isinstance(i, App) and i.fn == "slice") for i in (v.args[1].items if hasattr(v.args[1], "items") else [v.args[1]])):
             return feval(v.args[0], env)  # axis bookkeeping on a scalar representative
+    if isinstance(v, Num):
+        # a normalised polynomial: exact (hence rounding-free) when every coefficient is an integer and every atom evaluates to an int
+        tot = 0
+        for mono, co in v.poly.t.items():
+            if Fraction(co).denominator != 1:
+                raise CannotEvaluate("normalised polynomial with a fractional coefficient")
+            term = int(co)
+            for atom, ex in mono:
+                a = feval(atom, env)
+                if isinstance(a, bool) or not isinstance(a, int) or not isinstance(ex, int) or ex < 1:
+                    raise CannotEvaluate("normalised polynomial over a non-integer quantity")
+                term *= a ** ex
+            tot += term
+        return tot
     raise CannotEvaluate("float evaluation of %s" % (v.fn if isinstance(v, App) else type(v).__name__))
 
 
